@@ -1,4 +1,5 @@
 import Driver.C04
+import Driver.C16Incl
 import Driver.C12Env
 import Driver.C09T
 import Driver.C11_Labels
@@ -56,6 +57,7 @@ partial def loop (h : IO.FS.Stream) (out : IO.FS.Stream) (f : String → String)
   loop h out f
 
 def modes : List (String × (String → String)) := [
+  ("c16incl", C16Incl.handle),
   ("c12env", C12Env.handle),
   ("c09t", C09T.handle),
   ("c11lab", C11Labels.handle),
